@@ -408,6 +408,15 @@ def generated_paths():
                    'EMPTY_LIST;%s;EMPTY_TUPLE;%s;TUPLE2;APPEND' % (pu, ge), 'EMPTY_LIST;%s;MARK;%s;TUPLE;APPEND' % (pu, ge)]
             if v >= 4:
                 al += ['EMPTY_SET;%s;MARK;%s;ADDITEMS' % (pu, ge), 'EMPTY_SET;DUP;%s;MARK;NONE;ADDITEMS' % pu]
+        # self-insertion into containers that are ALREADY non-empty (built from items above a MARK, or filled earlier), directly
+        # and wrapped in a tuple: the cycle must be freed whatever the container held before
+        al += ['MARK;NONE;LIST;DUP;APPEND', 'MARK;NONE;NONE;DICT;DUP;NONE;SETITEM', 'MARK;NONE;LIST;DUP;DUP;APPEND;APPEND']
+        if v >= 1:
+            al += ['EMPTY_LIST;NONE;APPEND;DUP;APPEND', 'EMPTY_DICT;NONE;NONE;SETITEM;DUP;NONE;SETITEM', 'EMPTY_LIST;MARK;NONE;NONE;APPENDS;DUP;APPEND',
+                   'MARK;NONE;LIST;BINPUT;DUP;APPEND;BINGET;DUP;APPEND']
+        if v >= 2:
+            al += ['EMPTY_LIST;NONE;APPEND;DUP;TUPLE1;APPEND', 'MARK;NONE;LIST;DUP;TUPLE1;TUPLE1;APPEND', 'EMPTY_DICT;NONE;NONE;SETITEM;DUP;TUPLE1;NONE;SETITEM',
+                   'GLOBAL;EMPTY_TUPLE;REDUCE;NONE;TUPLE1;BUILD;DUP;TUPLE1;BUILD']
         if v < 2:
             al = [a for a in al if 'TUPLE2' not in a]       # TUPLE2 is a protocol-2 opcode
         if v < 1:
@@ -1337,6 +1346,10 @@ def run_s9(seed, tier, log):
                   'NONE;TUPLE1*%d;MEMOIZE;BINGET;TUPLE2' % n],
               # protocol 1 has no TUPLE1: nest lists through MARK ... LIST
               1: ['NONE' + ';MARK;NONE;LIST' * 3, 'EMPTY_LIST;DUP;APPEND;MARK;NONE;LIST']}
+    # chains of INSTANCES nested through their argument tuples (deeppath only: `(A;B)*n` repeats a group)
+    chains = {2: ['GLOBAL*%d;EMPTY_TUPLE;(REDUCE;TUPLE1)*%d;POP' % (n, n), 'GLOBAL*%d;EMPTY_TUPLE;(NEWOBJ;TUPLE1)*%d' % (n, n),
+                  'GLOBAL;EMPTY_TUPLE;REDUCE;(NONE;TUPLE1;BUILD;TUPLE1;GLOBAL;EMPTY_TUPLE;REDUCE;DUP;POP)*3;NONE'],
+              4: ['GLOBAL*%d;EMPTY_TUPLE;(EMPTY_DICT;NEWOBJ_EX;TUPLE1)*%d' % (n, n), 'GLOBAL*%d;EMPTY_TUPLE;(REDUCE;MEMOIZE;TUPLE1)*%d' % (n // 10, n // 10)]}
     pf = os.path.join(BUILD, 'deep.paths')
     plines = ['v=%d path=%s' % (v, sh_) for v, ss in shapes.items() for sh_ in ss]
     open(pf, 'w').write('\n'.join(plines) + '\n')
@@ -1385,9 +1398,9 @@ def run_s9(seed, tier, log):
     # the same shapes applied to the implementation DIRECTLY (hooks emit_one / valid_opcodes / finish): nobody's candidate list
     # decides the next opcode, so a change of the guards cannot derail the path; the guards are evaluated on the way
     nd = 100000 if tier == 'quick' else 1000000
-    for v, ss in (shapes.items() if hooks_ext() else []):
+    for v, ss in ([(v_, ss_ + chains.get(v_, [])) for v_, ss_ in shapes.items()] if hooks_ext() else []):
         for sh_ in ss:
-            sh_ = sh_.replace('*%d' % n, '*%d' % nd)
+            sh_ = sh_.replace('*%d' % n, '*%d' % nd).replace('*%d' % (n // 10), '*%d' % (nd // 10))
             p = subprocess.run([HBIN, 'deeppath', str(v), '2048', sh_], stdout=subprocess.PIPE, stderr=subprocess.PIPE, env=ENV, timeout=900, text=True)
             ok = p.returncode == 0 and 'DEEP-OK' in p.stdout
             did = 'deeppath-v%d-%s' % (v, hashlib.md5(sh_.encode()).hexdigest()[:8])
